@@ -471,6 +471,13 @@ theorem exec_tolist (ctx : Lscr.Ctx) (a : Int) (st : PState) (x : Node) (rest : 
   unfold process0
   simp only [PState.pop, hs, PState.push, Bind.bind, Except.bind, pure, Except.pure]
 
+theorem exec_todict (ctx : Lscr.Ctx) (a : Int) (st : PState) (x : Node) (rest : List Node) (hs : st.stack = x :: rest) :
+    execI ctx (.op1 0x1f) a st = .ok { st with stack := .toDict a x :: rest } := by
+  have hl : Opcodes.opcodes.lookup 0x1f = some { cls := "ToDictionaryOpcode", impl := "ToDictionaryOpcode", nbytes := 1, kind := "plain", attrs := [] } := rfl
+  simp only [execI, hl]
+  unfold process0
+  simp only [PState.pop, hs, PState.push, Bind.bind, Except.bind, pure, Except.pure]
+
 theorem lt_listName (res : Bool) (p : Int) (ops : List Node) : nameStartsLt (.loadList (listName res) p ops) = .ok res := by
   cases res <;> simp [nameStartsLt, Node.name, Lscr.Name.asStr, listName, Bind.bind, Except.bind, pure, Except.pure] <;> decide
 
@@ -718,6 +725,26 @@ theorem embH_idx_name (hs : List Spec.Name) (e : Expr) (nm : Lscr.Name) (n : Nod
 theorem theTbl_strThe (t : Tbl) (k : Nat) (v : Leaf × List (Nat × String) × String) (h : theTbl t = some v) : strThe t k = none := by
   cases t <;> simp [theTbl] at h <;> rfl
 
+theorem theTbl_field (t : Tbl) (v : Leaf × List (Nat × String) × String) (h : theTbl t = some v) : decide (t = Tbl.field) = false := by
+  cases t <;> simp [theTbl] at h <;> rfl
+
+/-- `the <p> of field e` (5c 0b): the object is the `field e` node itself, no `.name` reduction -/
+theorem exec_fieldprop (ctx : Lscr.Ctx) (k : Nat) (hk : tblCast.any (fun x => x.1 == k) = true) (a : Int) (st : PState) (p : Int) (x : Node)
+    (rest : List Node) (hst : st.stack = .leaf .const (.s (natStr k)) p :: x :: rest) :
+    execI ctx (.op2 0x5c 0x0b) a st = .ok { st with stack := .propAcc a (.unary (S "field") a x) (nameOrUnknown tblCast k) false :: rest } := by
+  have hkb : ("bi" = "bi" ∨ "bi" = "tri") := Or.inl rfl
+  have h1 : (Node.leaf .const (.s (natStr k)) p).name = .ok (.s (natStr k)) := rfl
+  have hb : Opcodes.biOpcodes.lookup 23563 = some { cls := "FieldPropertiesOpcode", impl := "FieldPropertiesOpcode", nbytes := 2, kind := "bi", attrs := [] } := rfl
+  simp only [execI, bi_lookup_5c, hkb, if_true, Nat.reduceMul, Nat.reduceAdd, hb, true_or]
+  have hp : process ctx { cls := "FieldPropertiesOpcode", impl := "FieldPropertiesOpcode", nbytes := 2, kind := "bi", attrs := [] } 0 0 a st
+      = process0 ctx { cls := "FieldPropertiesOpcode", impl := "FieldPropertiesOpcode", nbytes := 2, kind := "bi", attrs := [] } a st := by
+    unfold process
+    rw [if_neg (by decide), if_neg (by decide)]
+  rw [hp]
+  unfold process0
+  simp only [popInt, PState.pop, hst, h1, toInt_natStr, obj_table tblCast _ cast_rows k hk, fieldOf, Bind.bind, Except.bind, pure, Except.pure,
+    PState.push]
+
 theorem opTypes_ok (r : Nat) (ty : Str) (h : chunkTy r = some ty) : listGet Gen.PropTables.operationTypes (r : Int) = .ok ty := by
   unfold chunkTy ChunkKind.ofRank at h
   split at h
@@ -771,38 +798,10 @@ theorem exec_strthe (ctx : Lscr.Ctx) (t : Tbl) (k : Nat) (op : Str) (r : Nat) (t
     · cases hs
   | _ => simp [strThe] at hs
 
-/-! #### chunk expressions: `char a to b of d` (one slot per slice instruction, opcode 17) -/
+/-! #### chunk expressions: `char a to b of d` (opcode 17): names of the slot nodes -/
 
 /-- the node `03` pushes -/
 def zn (p : Int) : Node := .leaf .const (.s (natStr 0)) p
-
-theorem addStr_zero (op e : Node) (p : Int) (kind : Str) (idx : Int) : addStrOperation op (zn p) e kind idx = .ok op := by
-  simp [addStrOperation, zn, Node.name, natStr_zero, Bind.bind, Except.bind, pure, Except.pure]
-
-theorem addStr_some (op s e : Node) (sn en : Lscr.Name) (hs : s.name = .ok sn) (hsn : sn ≠ .s (S "0")) (he : e.name = .ok en)
-    (kind : Str) (idx : Int) :
-    addStrOperation op s e kind idx = .ok (.strOp kind idx s (if en ≠ .s (S "0") then e else .none) op) := by
-  simp only [addStrOperation, hs, he, Bind.bind, Except.bind, hsn, ne_eq, not_false_eq_true, if_true, pure, Except.pure]
-
-/-- the eight slot nodes below the string, for one filled slot -/
-def slotStack (k : ChunkKind) (s e : Node) (p0 p1 p2 p3 p4 p5 : Int) : List Node :=
-  match k with
-  | .char => [zn p0, zn p1, zn p2, zn p3, zn p4, zn p5, e, s]
-  | .word => [zn p0, zn p1, zn p2, zn p3, e, s, zn p4, zn p5]
-  | .item => [zn p0, zn p1, e, s, zn p2, zn p3, zn p4, zn p5]
-  | .line => [e, s, zn p0, zn p1, zn p2, zn p3, zn p4, zn p5]
-
-theorem exec_strop (ctx : Lscr.Ctx) (k : ChunkKind) (s e x : Node) (sn en : Lscr.Name) (hs : s.name = .ok sn) (hsn : sn ≠ .s (S "0"))
-    (he : e.name = .ok en) (p0 p1 p2 p3 p4 p5 : Int) (a : Int) (st : PState) (rest : List Node)
-    (hst : st.stack = x :: (slotStack k s e p0 p1 p2 p3 p4 p5 ++ rest)) :
-    execI ctx (.op1 0x17) a st = .ok { st with stack := .strOp k.tag.toList a s (if en ≠ .s (S "0") then e else .none) x :: rest } := by
-  have hl : Opcodes.opcodes.lookup 0x17 = some { cls := "StringOperationOpcode", impl := "StringOperationOpcode", nbytes := 1, kind := "plain", attrs := [] } := rfl
-  simp only [execI, hl]
-  unfold process0
-  cases k <;>
-    simp only [slotStack, List.cons_append, List.nil_append] at hst <;>
-    simp only [addModifiers, PState.pop, hst, addStr_zero, addStr_some _ s e sn en hs hsn he, Bind.bind, Except.bind, pure, Except.pure,
-      PState.push] <;> rfl
 
 theorem natStr_eq_zero (k : Nat) (h : natStr k = S "0") : k = 0 := by
   have h1 := pyIntOfStr_natStr k
@@ -844,6 +843,7 @@ theorem embH_name_zero (hs : List Spec.Name) (e : Expr) (n : Node) (hf : FragE e
     simp only [FragE, Bool.and_eq_true] at hf
     exact ⟨_, rfl, by simpa [isZero] using nz _ (idOk_ne_zero f hf.1.1.1.1)⟩
   | list as => obtain ⟨p, p', ops, rfl, _⟩ := h; exact ⟨_, rfl, by simpa [isZero] using nz _ (by decide)⟩
+  | plist as => obtain ⟨p, p', ops, rfl, _⟩ := h; exact ⟨_, rfl, by simpa [isZero] using nz _ (by decide)⟩
   | key v => obtain ⟨p, rfl⟩ := h; exact ⟨_, rfl, by simpa [isZero] using nz _ (by decide)⟩
   | movie v =>
     simp only [FragE] at hf
@@ -868,7 +868,9 @@ theorem embH_name_zero (hs : List Spec.Name) (e : Expr) (n : Node) (hf : FragE e
       cases xs with
       | nil =>
         simp only [EmbH] at h
-        rcases h with ⟨p, q, cls, tb, w, nm, _, _, rfl⟩ | ⟨p, y, op, r, ty, hst, _, rfl, _⟩
+        rcases h with ⟨p, q, cls, tb, w, nm, _, _, rfl⟩ | ⟨p, y, op, r, ty, hst, _, rfl, _⟩ | ⟨_, p, q, y, rfl, _⟩
+        · exact ⟨_, rfl, by simpa [isZero] using nz _ (by decide)⟩
+        rotate_left
         · exact ⟨_, rfl, by simpa [isZero] using nz _ (by decide)⟩
         · refine ⟨_, rfl, ?_⟩
           have hop : op = S "number" ∨ op = S "last" := by
@@ -917,7 +919,9 @@ theorem EmbH.toEmb (hs : List Spec.Name) : ∀ (e : Expr) (n : Node), EmbH hs e 
   | .float _ _, _, h => by simp [EmbH] at h
   | .me, _, h => by simp [EmbH] at h
   | .mcall _ _ _, _, h => by simp [EmbH] at h
-  | .plist _, _, h => by simp [EmbH] at h
+  | .plist as, _, h => by
+    obtain ⟨p, p', ops, rfl, hops⟩ := h
+    exact ⟨p, p', ops, rfl, EmbLH.toEmbL hs as ops hops⟩
   | .the t k as, _, h => by
     cases as with
     | cons x xs =>
@@ -926,9 +930,10 @@ theorem EmbH.toEmb (hs : List Spec.Name) : ∀ (e : Expr) (n : Node), EmbH hs e 
       | nil =>
         simp only [EmbH] at h
         simp only [Emb]
-        rcases h with h | ⟨p, y, op, r, ty, h1, h2, rfl, hy⟩
+        rcases h with h | ⟨p, y, op, r, ty, h1, h2, rfl, hy⟩ | ⟨ht, p, q, y, rfl, hy⟩
         · exact Or.inl h
-        · exact Or.inr ⟨p, y, op, r, ty, h1, h2, rfl, EmbH.toEmb hs x y hy⟩
+        · exact Or.inr (Or.inl ⟨p, y, op, r, ty, h1, h2, rfl, EmbH.toEmb hs x y hy⟩)
+        · exact Or.inr (Or.inr ⟨ht, p, q, y, rfl, EmbH.toEmb hs x y hy⟩)
     | nil => cases t <;> first | (simp [EmbH] at h; done) | (simp only [EmbH] at h; simp only [Emb]; exact h)
   | .key _, _, h => by simp only [EmbH] at h; simp only [Emb]; exact h
   | .movie _, _, h => by simp only [EmbH] at h; simp only [Emb]; exact h
@@ -1058,9 +1063,334 @@ theorem run_zeros (ctx : Lscr.Ctx) : ∀ (n a : Nat) (st : PState),
     rw [e2, run_zeros ctx n (a + 1)]
     simp [zs, zn]
 
-theorem slotCode_single (k : ChunkKind) (ca cb : List Instr) :
-    slotCode [(k.rank, ca, cb)] = List.replicate (2 * (k.rank - 1)) (Instr.op1 0x03) ++ (ca ++ cb) ++ List.replicate (2 * (4 - k.rank)) (Instr.op1 0x03) := by
-  cases k <;> simp [slotCode, ChunkKind.rank, List.replicate]
+/-! #### the slice instruction: eight slot nodes (one or several filled) under the string -/
+
+def kindOf (r : Nat) : Str := if r = 1 then S "char" else if r = 2 then S "word" else if r = 3 then S "item" else S "line"
+
+theorem kindOf_rank (k : ChunkKind) : kindOf k.rank = k.tag.toList := by cases k <;> rfl
+
+/-- `add_str_operation` on nodes with names -/
+def stepN (kind : Str) (idx : Int) (s e op : Node) : Node :=
+  match s.name, e.name with
+  | .ok sn, .ok en => if sn ≠ .s (S "0") then .strOp kind idx s (if en ≠ .s (S "0") then e else .none) op else op
+  | _, _ => op
+
+theorem addStr_stepN (op s e : Node) (sn en : Lscr.Name) (hs : s.name = .ok sn) (he : e.name = .ok en) (kind : Str) (idx : Int) :
+    addStrOperation op s e kind idx = .ok (stepN kind idx s e op) := by
+  by_cases h : sn = .s (S "0")
+  · simp [addStrOperation, stepN, hs, he, h, Bind.bind, Except.bind, pure, Except.pure]
+  · simp [addStrOperation, stepN, hs, he, h, Bind.bind, Except.bind, pure, Except.pure]
+
+/-- apply the slot pairs of a stack segment, top first (last, first of the coarsest remaining rank `rk`) -/
+def applyL : Nat → List Node → Node → Int → Node
+  | rk, e :: s :: rest, x, idx => applyL (rk - 1) rest (stepN (kindOf rk) idx s e x) idx
+  | _, [], x, _ => x
+  | _, [_], x, _ => x
+
+def Named (l : List Node) : Prop := ∀ n ∈ l, ∃ nm, n.name = .ok nm
+
+theorem addModifiers_ok (x : Node) (st : PState) (idx : Int) (l : List Node) (hl : l.length = 8) (hn : Named l) (rest : List Node)
+    (hst : st.stack = l ++ rest) : addModifiers x st idx = .ok (applyL 4 l x idx, { st with stack := rest }) := by
+  match l, hl with
+  | [ll, fl, li, fi, lw, fw, lc, fc], _ =>
+    obtain ⟨n1, h1⟩ := hn ll (by simp)
+    obtain ⟨n2, h2⟩ := hn fl (by simp)
+    obtain ⟨n3, h3⟩ := hn li (by simp)
+    obtain ⟨n4, h4⟩ := hn fi (by simp)
+    obtain ⟨n5, h5⟩ := hn lw (by simp)
+    obtain ⟨n6, h6⟩ := hn fw (by simp)
+    obtain ⟨n7, h7⟩ := hn lc (by simp)
+    obtain ⟨n8, h8⟩ := hn fc (by simp)
+    simp only [List.cons_append, List.nil_append] at hst
+    simp only [addModifiers, PState.pop, hst, Bind.bind, Except.bind, pure, Except.pure,
+      addStr_stepN _ fl ll n2 n1 h2 h1, addStr_stepN _ fi li n4 n3 h4 h3, addStr_stepN _ fw lw n6 n5 h6 h5, addStr_stepN _ fc lc n8 n7 h8 h7]
+    rfl
+
+theorem stepN_zero (kind : Str) (idx : Int) (p : Int) (e op : Node) : stepN kind idx (zn p) e op = op := by
+  unfold stepN
+  cases he : e.name <;> simp [zn, Node.name, natStr_zero]
+
+def AllZ (l : List Node) : Prop := ∀ n ∈ l, ∃ p, n = zn p
+
+theorem applyL_zeros : ∀ (l : List Node) (rk : Nat) (x : Node) (idx : Int), AllZ l → applyL rk l x idx = x
+  | [], _, _, _, _ => by simp [applyL]
+  | [_], _, _, _, _ => by simp [applyL]
+  | e :: s :: rest, rk, x, idx, h => by
+    obtain ⟨p, rfl⟩ := h s (by simp)
+    rw [applyL, stepN_zero]
+    exact applyL_zeros rest _ x idx (fun n hn => h n (by simp [hn]))
+
+theorem applyL_append : ∀ (l1 l2 : List Node) (rk j : Nat) (x : Node) (idx : Int), l1.length = 2 * j →
+    applyL rk (l1 ++ l2) x idx = applyL (rk - j) l2 (applyL rk l1 x idx) idx
+  | [], l2, rk, j, x, idx, h => by
+    have : j = 0 := by simp at h; omega
+    subst this; simp [applyL]
+  | [_], l2, rk, j, x, idx, h => by simp at h; omega
+  | e :: s :: rest, l2, rk, j, x, idx, h => by
+    obtain ⟨j', rfl⟩ : ∃ j', j = j' + 1 := ⟨j - 1, by simp at h; omega⟩
+    have hl : rest.length = 2 * j' := by simp at h; omega
+    simp only [List.cons_append, applyL]
+    rw [applyL_append rest l2 (rk - 1) j' _ idx hl]
+    have : rk - 1 - j' = rk - (j' + 1) := by omega
+    rw [this]
+
+theorem zs_allZ : ∀ (n a : Nat), AllZ (zs a n)
+  | 0, _ => by intro n hn; simp [zs] at hn
+  | n + 1, a => by
+    intro m hm
+    simp only [zs, List.mem_append, List.mem_singleton] at hm
+    rcases hm with hm | rfl
+    · exact zs_allZ n (a + 1) m hm
+    · exact ⟨_, rfl⟩
+
+theorem zs_length : ∀ (n a : Nat), (zs a n).length = n
+  | 0, _ => rfl
+  | n + 1, a => by simp [zs, zs_length n]
+
+theorem zn_named (p : Int) : ∃ nm, (zn p).name = .ok nm := ⟨_, rfl⟩
+
+theorem allZ_named (l : List Node) (h : AllZ l) : Named l := by
+  intro n hn; obtain ⟨p, rfl⟩ := h n hn; exact zn_named p
+
+/-! slot code -/
+
+abbrev Slots := List (Nat × List Instr × List Instr)
+
+def getSlot (sl : Slots) (r : Nat) : List Instr :=
+  match sl.find? (fun x => x.1 == r) with
+  | some (_, a, b) => a ++ b
+  | none => [Instr.op1 0x03, .op1 0x03]
+
+theorem slotCode_eq (sl : Slots) : slotCode sl = getSlot sl 1 ++ getSlot sl 2 ++ getSlot sl 3 ++ getSlot sl 4 := rfl
+
+def slotsFrom (sl : Slots) : Nat → List Instr
+  | 0 => getSlot sl 1 ++ getSlot sl 2 ++ getSlot sl 3 ++ getSlot sl 4
+  | 1 => getSlot sl 2 ++ getSlot sl 3 ++ getSlot sl 4
+  | 2 => getSlot sl 3 ++ getSlot sl 4
+  | 3 => getSlot sl 4
+  | _ => []
+
+def Above (m : Nat) (sl : Slots) : Prop := ∀ x ∈ sl, m < x.1
+
+theorem getSlot_above (sl : Slots) (m r : Nat) (h : Above m sl) (hr : r ≤ m) : getSlot sl r = [Instr.op1 0x03, .op1 0x03] := by
+  have : sl.find? (fun x => x.1 == r) = none := by
+    rw [List.find?_eq_none]
+    intro x hx
+    have := h x hx
+    simp only [beq_iff_eq]
+    omega
+  simp only [getSlot, this]
+
+theorem getSlot_cons (k : Nat) (a b : List Instr) (sl : Slots) (r : Nat) :
+    getSlot ((k, a, b) :: sl) r = if k = r then a ++ b else getSlot sl r := by
+  by_cases h : k = r
+  · simp [getSlot, List.find?, h]
+  · have : (k == r) = false := by simpa using h
+    simp [getSlot, List.find?, this, h]
+
+theorem slotsFrom_nil (m : Nat) : slotsFrom [] m = List.replicate (2 * (4 - m)) (Instr.op1 0x03) := by
+  match m with
+  | 0 => simp [slotsFrom, getSlot, List.replicate]
+  | 1 => simp [slotsFrom, getSlot, List.replicate]
+  | 2 => simp [slotsFrom, getSlot, List.replicate]
+  | 3 => simp [slotsFrom, getSlot, List.replicate]
+  | n + 4 => simp [slotsFrom]
+
+theorem slotsFrom_cons (k : ChunkKind) (ca cb : List Instr) (sl : Slots) (r : Nat) (hr : r < k.rank) (h : Above k.rank sl) :
+    slotsFrom ((k.rank, ca, cb) :: sl) r
+      = List.replicate (2 * (k.rank - 1 - r)) (Instr.op1 0x03) ++ (ca ++ cb) ++ slotsFrom sl k.rank := by
+  have g : ∀ r', r' ≤ k.rank → getSlot sl r' = [Instr.op1 0x03, .op1 0x03] := fun r' hr' => getSlot_above sl k.rank r' h hr'
+  have hr4 : r = 0 ∨ r = 1 ∨ r = 2 ∨ r = 3 := by cases k <;> simp [ChunkKind.rank] at hr <;> omega
+  rcases hr4 with rfl | rfl | rfl | rfl <;> cases k <;> simp only [ChunkKind.rank] at hr g ⊢ <;>
+    first
+    | (exfalso; omega)
+    | (simp [slotsFrom, getSlot_cons, g 1 (by omega), g 2 (by omega), g 3 (by omega), List.replicate]; done)
+    | (simp [slotsFrom, getSlot_cons, g 1 (by omega), g 2 (by omega), List.replicate]; done)
+    | (simp [slotsFrom, getSlot_cons, g 1 (by omega), List.replicate]; done)
+    | (simp [slotsFrom, getSlot_cons, List.replicate]; done)
+
+theorem rank_le4 (k : ChunkKind) : 1 ≤ k.rank ∧ k.rank ≤ 4 := by cases k <;> simp [ChunkKind.rank]
+
+/-- result of running the slot codes of the ranks above `r` and the base of a chain that ends in `e`: the slot pairs `l`
+    (coarsest on top) under the base node `x`; the slice instruction will turn them into the image of `e` -/
+def TailRun (G hs : List Spec.Name) (e : Expr) (r : Nat) (ctx : Lscr.Ctx) (ad : Nat) (code : List Instr) (st : PState) : Prop :=
+  ∃ (l : List Node) (x : Node) (gv' : List Node), l.length = 2 * (4 - r) ∧ Named l ∧ GvNext G st.gvars gv' ∧
+    runIs ctx ad code st = .ok { st with stack := x :: (l ++ st.stack), gvars := gv' } ∧ ∀ idx, EmbH hs e (applyL 4 l x idx)
+
+/-- a string that is not merged into the slice: zeros for the remaining slots, then the string -/
+theorem tail_of_expr (G hs : List Spec.Name) (d : Expr) (m : Nat) (ctx : Lscr.Ctx) (cd : List Instr)
+    (PD : ∀ (ad : Nat) (st : PState), st.bpc = 6 → GvOk G st.gvars → Pushed G hs d ctx ad cd st)
+    (ad : Nat) (st : PState) (hb : st.bpc = 6) (hgv : GvOk G st.gvars) :
+    TailRun G hs d m ctx ad (List.replicate (2 * (4 - m)) (Instr.op1 0x03) ++ cd) st := by
+  have r0 := run_zeros ctx (2 * (4 - m)) ad st
+  obtain ⟨nd, gv1, hemb, hgv1, hr1⟩ := PD (ad + 2 * (4 - m)) { st with stack := zs ad (2 * (4 - m)) ++ st.stack } hb hgv
+  refine ⟨zs ad (2 * (4 - m)), nd, gv1, zs_length _ _, allZ_named _ (zs_allZ _ _), hgv1, ?_, ?_⟩
+  · rw [runIs_append, r0]
+    simp only [Except.bind, codeSize_zeros]
+    exact hr1
+  · intro idx
+    rw [applyL_zeros _ _ _ _ (zs_allZ _ _)]
+    exact hemb
+
+theorem chunk_core (G hs : List Spec.Name) (k : ChunkKind) (a b d : Expr) (r : Nat) (hr : r < k.rank) (hfa : FragE a = true)
+    (hza : isZero a = false) (hfb : FragE b = true) (ctx : Lscr.Ctx) (ca cb tcode : List Instr)
+    (PA : ∀ (ad : Nat) (st : PState), st.bpc = 6 → GvOk G st.gvars → Pushed G hs a ctx ad ca st)
+    (PB : ∀ (ad : Nat) (st : PState), st.bpc = 6 → GvOk G st.gvars → Pushed G hs b ctx ad cb st)
+    (PT : ∀ (ad : Nat) (st : PState), st.bpc = 6 → GvOk G st.gvars → TailRun G hs d k.rank ctx ad tcode st)
+    (ad : Nat) (st : PState) (hb : st.bpc = 6) (hgv : GvOk G st.gvars) :
+    TailRun G hs (.chunk k a b d) r ctx ad (List.replicate (2 * (k.rank - 1 - r)) (Instr.op1 0x03) ++ (ca ++ cb) ++ tcode) st := by
+  obtain ⟨hk1, hk4⟩ := rank_le4 k
+  let n0 := 2 * (k.rank - 1 - r)
+  have r0 := run_zeros ctx n0 ad st
+  obtain ⟨na, gv1, hemba, hgv1, hr1⟩ := PA (ad + n0) { st with stack := zs ad n0 ++ st.stack } hb hgv
+  obtain ⟨nb, gv2, hembb, hgv2, hr2⟩ := PB (ad + n0 + codeSize ca) { st with stack := na :: (zs ad n0 ++ st.stack), gvars := gv1 } hb hgv1.1
+  obtain ⟨lt, x, gv3, hlen, hnamed, hgv3, hr3, himg⟩ := PT (ad + n0 + codeSize ca + codeSize cb)
+    { st with stack := nb :: na :: (zs ad n0 ++ st.stack), gvars := gv2 } hb hgv2.1
+  obtain ⟨sn, hsn, hsz⟩ := embH_name_zero hs a na hfa hemba
+  obtain ⟨en, hen, hez⟩ := embH_name_zero hs b nb hfb hembb
+  have hsn0 : sn ≠ .s (S "0") := fun e => by rw [hsz.mp e] at hza; cases hza
+  refine ⟨lt ++ ([nb, na] ++ zs ad n0), x, gv3, ?_, ?_, (hgv1.trans hgv2).trans hgv3, ?_, ?_⟩
+  · simp only [List.length_append, hlen, List.length_cons, List.length_nil, zs_length, n0]
+    omega
+  · intro n hn
+    simp only [List.mem_append, List.mem_cons, List.mem_nil_iff, or_false] at hn
+    rcases hn with hn | (rfl | rfl) | hn
+    · exact hnamed n hn
+    · exact ⟨_, hen⟩
+    · exact ⟨_, hsn⟩
+    · exact allZ_named _ (zs_allZ _ _) n hn
+  · rw [runIs_append, runIs_append, r0]
+    simp only [Except.bind, codeSize_zeros]
+    rw [runIs_append, hr1]
+    simp only [Except.bind]
+    rw [hr2]
+    simp only [Except.bind, codeSize_append, codeSize_zeros]
+    have e1 : ad + (n0 + (codeSize ca + codeSize cb)) = ad + n0 + codeSize ca + codeSize cb := by omega
+    rw [e1, hr3]
+    simp [List.append_assoc]
+  · intro idx
+    rw [applyL_append lt ([nb, na] ++ zs ad n0) 4 (4 - k.rank) x idx hlen]
+    have e4 : 4 - (4 - k.rank) = k.rank := by omega
+    rw [e4]
+    simp only [List.cons_append, List.nil_append, applyL]
+    rw [applyL_zeros _ _ _ _ (zs_allZ _ _)]
+    simp only [stepN, hsn, hen, hsn0, ne_eq, not_false_eq_true, if_true, kindOf_rank]
+    refine ⟨idx, na, _, _, rfl, hemba, ?_, himg idx⟩
+    cases hzb : isZero b with
+    | true => left; exact ⟨rfl, by rw [if_neg (by rw [hez.mpr hzb]; simp)]⟩
+    | false =>
+      right
+      have : en ≠ .s (S "0") := fun e => by rw [hez.mp e] at hzb; cases hzb
+      exact ⟨rfl, by rw [if_pos this]; exact hembb⟩
+
+theorem exec_strop_gen (ctx : Lscr.Ctx) (x : Node) (l : List Node) (hl : l.length = 8) (hn : Named l) (a : Int) (st : PState)
+    (rest : List Node) (hst : st.stack = x :: (l ++ rest)) :
+    execI ctx (.op1 0x17) a st = .ok { st with stack := applyL 4 l x a :: rest } := by
+  have hl' : Opcodes.opcodes.lookup 0x17 = some { cls := "StringOperationOpcode", impl := "StringOperationOpcode", nbytes := 1, kind := "plain", attrs := [] } := rfl
+  simp only [execI, hl']
+  unfold process0
+  simp only [PState.pop, hst, Bind.bind, Except.bind, pure, Except.pure]
+  rw [addModifiers_ok x { st with stack := l ++ rest } a l hl hn rest rfl]
+  rfl
+
+/-- `lowerChunkTail` answers `none` without touching the state -/
+theorem tail_none (c : Spec.Ctx) (r : Nat) (d : Expr) (s s' : St) (h : lowerChunkTail c r d s = .ok (none, s')) : s' = s := by
+  cases d with
+  | chunk k a b d' =>
+    rw [lowerChunkTail] at h
+    by_cases hk : k.rank > r
+    · simp only [hk, if_true, M_bind_ok] at h
+      obtain ⟨ca, sa, _, cb, sb, _, res, s3, _, h⟩ := h
+      cases res with
+      | none =>
+        simp only [M_bind_ok, M_pure_ok, Prod.mk.injEq] at h
+        obtain ⟨_, _, _, h, _⟩ := h
+        cases h
+      | some v =>
+        obtain ⟨sl, base⟩ := v
+        simp only [M_pure_ok, Prod.mk.injEq] at h
+        cases h.1
+    · simp only [hk, if_false, M_pure_ok, Prod.mk.injEq] at h
+      exact h.2
+  | _ =>
+    rw [lowerChunkTail] at h
+    · simp only [M_pure_ok, Prod.mk.injEq] at h
+      exact h.2
+    all_goals (intros; contradiction)
+
+/-- what `stack_lemma` states about one expression (abbreviation for hypotheses) -/
+def StackOK (c : Spec.Ctx) (e : Expr) (s0 s1 : St) (code : List Instr) : Prop :=
+  Ext s0 s1 ∧ (∀ i ∈ code, i.opc ≠ 153) ∧
+    ∀ (sF : St) (ctx : Lscr.Ctx), Ext s1 sF → Rel c sF ctx → ∀ (G : List Spec.Name), (∀ g ∈ e.vars .glob, g ∈ G) →
+      ∀ (a : Nat) (st : PState), st.bpc = 6 → GvOk G st.gvars → Pushed G c.handlers e ctx a code st
+
+/-- the same for the merged tail of a chain -/
+def TailOK (c : Spec.Ctx) (e : Expr) (r : Nat) (s0 s1 : St) (sl : Slots) (base : List Instr) : Prop :=
+  Ext s0 s1 ∧ Above r sl ∧ (∀ i ∈ slotsFrom sl r ++ base, i.opc ≠ 153) ∧
+    ∀ (sF : St) (ctx : Lscr.Ctx), Ext s1 sF → Rel c sF ctx → ∀ (G : List Spec.Name), (∀ g ∈ e.vars .glob, g ∈ G) →
+      ∀ (ad : Nat) (st : PState), st.bpc = 6 → GvOk G st.gvars → TailRun G c.handlers e r ctx ad (slotsFrom sl r ++ base) st
+
+theorem tailOK_of_stack (c : Spec.Ctx) (d : Expr) (m : Nat) (s0 s1 : St) (cd : List Instr) (h : StackOK c d s0 s1 cd) :
+    TailOK c d m s0 s1 [] cd := by
+  obtain ⟨hext, hop, hrun⟩ := h
+  refine ⟨hext, (fun x hx => absurd hx (List.not_mem_nil)), ?_, ?_⟩
+  · intro i hi
+    rw [slotsFrom_nil] at hi
+    rcases List.mem_append.mp hi with hi | hi
+    · obtain ⟨_, rfl⟩ := List.mem_replicate.mp hi; simp [Instr.opc]
+    · exact hop i hi
+  · intro sF ctx hF hrel G hG ad st hb hgv
+    rw [slotsFrom_nil]
+    exact tail_of_expr G c.handlers d m ctx cd (fun ad' st' hb' hgv' => hrun sF ctx hF hrel G hG ad' st' hb' hgv') ad st hb hgv
+
+theorem chunk_tailOK (c : Spec.Ctx) (k : ChunkKind) (a b d : Expr) (r : Nat) (hr : r < k.rank) (hfa : FragE a = true)
+    (hza : isZero a = false) (hfb : FragE b = true) (s0 sa sb s1 : St) (ca cb : List Instr) (sl' : Slots) (base : List Instr)
+    (SA : StackOK c a s0 sa ca) (SB : StackOK c b sa sb cb) (ST : TailOK c d k.rank sb s1 sl' base) :
+    TailOK c (.chunk k a b d) r s0 s1 ((k.rank, ca, cb) :: sl') base := by
+  obtain ⟨hexta, hopa, hruna⟩ := SA
+  obtain ⟨hextb, hopb, hrunb⟩ := SB
+  obtain ⟨hextt, habove, hopt, hrunt⟩ := ST
+  have hcode : slotsFrom ((k.rank, ca, cb) :: sl') r ++ base
+      = List.replicate (2 * (k.rank - 1 - r)) (Instr.op1 0x03) ++ (ca ++ cb) ++ (slotsFrom sl' k.rank ++ base) := by
+    rw [slotsFrom_cons k ca cb sl' r hr habove, List.append_assoc]
+  refine ⟨(hexta.trans hextb).trans hextt, ?_, ?_, ?_⟩
+  · intro x hx
+    rcases List.mem_cons.mp hx with rfl | hx
+    · exact hr
+    · have := habove x hx; omega
+  · intro i hi
+    rw [hcode] at hi
+    simp only [List.mem_append, List.mem_replicate] at hi
+    rcases hi with (⟨_, rfl⟩ | hi | hi) | hi
+    · simp [Instr.opc]
+    · exact hopa i hi
+    · exact hopb i hi
+    · exact hopt i (List.mem_append.mpr hi)
+  · intro sF ctx hF hrel G hG ad st hb hgv
+    have hG3 : ∀ g ∈ a.vars .glob ++ b.vars .glob ++ d.vars .glob, g ∈ G := by simpa [Expr.vars] using hG
+    rw [hcode]
+    exact chunk_core G c.handlers k a b d r hr hfa hza hfb ctx ca cb (slotsFrom sl' k.rank ++ base)
+      (fun ad' st' hb' hgv' => hruna sF ctx ((hextb.trans hextt).trans hF) hrel G (fun g hg => hG3 g (by simp [hg])) ad' st' hb' hgv')
+      (fun ad' st' hb' hgv' => hrunb sF ctx (hextt.trans hF) hrel G (fun g hg => hG3 g (by simp [hg])) ad' st' hb' hgv')
+      (fun ad' st' hb' hgv' => hrunt sF ctx hF hrel G (fun g hg => hG3 g (by simp [hg])) ad' st' hb' hgv')
+      ad st hb hgv
+
+/-- from the tail at rank 0 to the whole slice expression -/
+theorem stackOK_of_tail (c : Spec.Ctx) (e : Expr) (s0 s1 : St) (sl : Slots) (base : List Instr) (h : TailOK c e 0 s0 s1 sl base) :
+    StackOK c e s0 s1 (slotCode sl ++ base ++ [.op1 0x17]) := by
+  obtain ⟨hext, _, hop, hrun⟩ := h
+  have hcode : slotCode sl ++ base = slotsFrom sl 0 ++ base := rfl
+  refine ⟨hext, ?_, ?_⟩
+  · intro i hi
+    rcases List.mem_append.mp hi with hi | hi
+    · rw [hcode] at hi; exact hop i hi
+    · simp only [List.mem_singleton] at hi; subst hi; simp [Instr.opc]
+  · intro sF ctx hF hrel G hG ad st hb hgv
+    obtain ⟨l, x, gv', hlen, hnamed, hgv', hr, himg⟩ := hrun sF ctx hF hrel G hG ad st hb hgv
+    refine ⟨applyL 4 l x ((ad + codeSize (slotCode sl ++ base) : Nat) : Int), gv', himg _, hgv', ?_⟩
+    rw [runIs_append, hcode, hr]
+    simp only [Except.bind]
+    rw [runIs_single, exec_strop_gen ctx x l (by simpa using hlen) hnamed _ _ st.stack rfl]
 
 theorem vars_sub_left {G : List Spec.Name} {x y : List Spec.Name} (h : ∀ g ∈ x ++ y, g ∈ G) : ∀ g ∈ x, g ∈ G :=
   fun g hg => h g (List.mem_append_left _ hg)
@@ -1318,7 +1648,36 @@ theorem stack_lemma : ∀ (e : Expr), FragE e = true → ∀ (c : Spec.Ctx) (s0 
   | .float _ _, hf, _, _, _, _, _ => by simp [FragE] at hf
   | .me, hf, _, _, _, _, _ => by simp [FragE] at hf
   | .mcall _ _ _, hf, _, _, _, _, _ => by simp [FragE] at hf
-  | .plist _, hf, _, _, _, _, _ => by simp [FragE] at hf
+  | .plist as, hf, c, s0, s1, code, h => by
+    simp only [FragE, Bool.and_eq_true] at hf
+    replace hf := hf.1
+    rw [lowerExpr] at h
+    simp only [M_bind_ok, M_pure_ok, Prod.mk.injEq] at h
+    obtain ⟨ca, s', ha, cn, s'', hn, rfl, rfl⟩ := h
+    obtain ⟨hext, hop, hrun⟩ := args_lemma as hf c s0 _ ca ha
+    obtain ⟨rfl, i, rfl, hiop, hiex⟩ := argsInstr_ok true as.length _ _ _ hn
+    refine ⟨hext, ?_, ?_⟩
+    · intro j hj
+      rcases List.mem_append.mp hj with hj | hj
+      · rcases List.mem_append.mp hj with hj | hj
+        · exact hop j hj
+        · simp only [List.mem_singleton] at hj; subst hj; exact hiop
+      · simp only [List.mem_singleton] at hj; subst hj; simp [Instr.opc]
+    intro sF ctx hF hrel G hG a st hb hgv
+    obtain ⟨ns, gv1, hemb, hgv1, hr1⟩ := hrun sF ctx hF hrel G (by simpa [Expr.vars] using hG) a st hb hgv
+    have hlen := embLH_length _ as ns hemb
+    have hle : as.length ≤ (ns.reverse ++ st.stack).length := by simp; omega
+    have htake : (ns.reverse ++ st.stack).take as.length = ns.reverse := by
+      rw [List.take_append_of_le_length (by simp; omega), List.take_of_length_le (by simp; omega)]
+    have hdrop : (ns.reverse ++ st.stack).drop as.length = st.stack := by
+      rw [List.drop_append_of_le_length (by simp; omega), List.drop_of_length_le (by simp; omega), List.nil_append]
+    refine ⟨_, gv1, ⟨((a + codeSize (ca ++ [i]) : Nat) : Int), ((a + codeSize ca : Nat) : Int), ns, rfl, hemb⟩, hgv1, ?_⟩
+    rw [runIs_append, runIs_append, hr1]
+    simp only [Except.bind]
+    rw [runIs_single, hiex ctx _ { st with stack := ns.reverse ++ st.stack, gvars := gv1 } hle]
+    simp only [htake, hdrop]
+    rw [runIs_single, exec_todict ctx _ _ _ st.stack rfl]
+    rfl
   | .the t k as, hf, c, s0, s1, code, h => by
     cases as with
     | cons x xs =>
@@ -1345,14 +1704,41 @@ theorem stack_lemma : ∀ (e : Expr), FragE e = true → ∀ (c : Spec.Ctx) (s0 
         cases ht : theTbl t with
         | none =>
           rw [ht] at hor
-          simp only [Bool.false_and, Bool.false_eq_true, false_or] at hor
+          simp only [Bool.false_and, Bool.false_eq_true, false_or, false_and] at hor
           cases hst : strThe t k with
-          | none => rw [hst] at hor; simp at hor
+          | none =>
+            rw [hst] at hor
+            simp only [Bool.false_eq_true, false_or, Bool.and_eq_true, decide_eq_true_eq] at hor
+            obtain ⟨rfl, hk⟩ := hor
+            refine ⟨hext1.trans hext2, hops, ?_⟩
+            intro sF ctx hF hrel G hG a st hb hgv
+            obtain ⟨n, gv1, hemb, hgv1, hr1⟩ := hrun1 sF ctx (hext2.trans hF) hrel G (by simpa [Expr.vars, Expr.varsList] using hG) a st hb hgv
+            obtain ⟨i, rfl, hex⟩ := hrun2 c sF ctx hF hrel ((a + codeSize ce : Nat) : Int)
+              { st with stack := n :: st.stack, gvars := gv1 } hb
+            have hs := exec_fieldprop ctx k hk ((a + codeSize (ce ++ [i]) : Nat) : Int)
+              { st with stack := .leaf .const (.s (natStr k)) ((a + codeSize ce : Nat) : Int) :: n :: st.stack, gvars := gv1 }
+              ((a + codeSize ce : Nat) : Int) n st.stack rfl
+            refine ⟨.propAcc ((a + codeSize (ce ++ [i]) : Nat) : Int) (.unary (S "field") ((a + codeSize (ce ++ [i]) : Nat) : Int) n)
+              (nameOrUnknown tblCast k) false, gv1, ?_, hgv1, ?_⟩
+            · simp only [EmbH]
+              refine Or.inr (Or.inr ⟨?_, _, _, n, rfl, hemb⟩)
+              first | rfl | trivial
+            · rw [runIs_append, runIs_append, hr1]
+              simp only [Except.bind]
+              rw [runIs_single, hex]
+              simp only [Except.bind]
+              rw [runIs_single]
+              exact hs
           | some v =>
             obtain ⟨op, r⟩ := v
             rw [hst] at hor
-            simp only [false_and, false_or] at hor
-            obtain ⟨ty, hty⟩ := Option.isSome_iff_exists.mp hor
+            have hor' : (chunkTy r).isSome = true := by
+              rcases hor with hor | hor
+              · exact hor
+              · simp only [Bool.and_eq_true, decide_eq_true_eq] at hor
+                obtain ⟨rfl, _⟩ := hor
+                simp [strThe] at hst
+            obtain ⟨ty, hty⟩ := Option.isSome_iff_exists.mp hor'
             refine ⟨hext1.trans hext2, hops, ?_⟩
             intro sF ctx hF hrel G hG a st hb hgv
             obtain ⟨n, gv1, hemb, hgv1, hr1⟩ := hrun1 sF ctx (hext2.trans hF) hrel G (by simpa [Expr.vars, Expr.varsList] using hG) a st hb hgv
@@ -1362,7 +1748,7 @@ theorem stack_lemma : ∀ (e : Expr), FragE e = true → ∀ (c : Spec.Ctx) (s0 
               { st with stack := .leaf .const (.s (natStr k)) ((a + codeSize ce : Nat) : Int) :: n :: st.stack, gvars := gv1 }
               ((a + codeSize ce : Nat) : Int) n st.stack rfl
             refine ⟨.unaryStr op ((a + codeSize (ce ++ [i]) : Nat) : Int) (some ty) n, gv1, ?_, hgv1, ?_⟩
-            · simp only [EmbH]; exact Or.inr ⟨_, n, op, r, ty, hst, hty, rfl, hemb⟩
+            · simp only [EmbH]; exact Or.inr (Or.inl ⟨_, n, op, r, ty, hst, hty, rfl, hemb⟩)
             · rw [runIs_append, runIs_append, hr1]
               simp only [Except.bind]
               rw [runIs_single, hex]
@@ -1371,8 +1757,8 @@ theorem stack_lemma : ∀ (e : Expr), FragE e = true → ∀ (c : Spec.Ctx) (s0 
               exact hs
         | some v =>
           obtain ⟨cls, tb, w⟩ := v
-          rw [ht, theTbl_strThe t k _ ht] at hor
-          simp only [Bool.and_eq_true, Bool.false_eq_true, or_false] at hor
+          rw [ht, theTbl_strThe t k _ ht, theTbl_field t _ ht] at hor
+          simp only [Bool.and_eq_true, Bool.false_eq_true, or_false, Bool.false_and, false_and] at hor
           obtain ⟨htk, hidx⟩ := hor
           obtain ⟨nm, hnm⟩ := Option.isSome_iff_exists.mp hidx
           refine ⟨hext1.trans hext2, hops, ?_⟩
@@ -1486,97 +1872,140 @@ theorem stack_lemma : ∀ (e : Expr), FragE e = true → ∀ (c : Spec.Ctx) (s0 
     rw [runIs_single, exec_oprop ctx i v hnm _ _ n st.stack rfl]
   | .chunk k a b d, hf, c, s0, s1, code, h => by
     simp only [FragE, Bool.and_eq_true, Bool.not_eq_true'] at hf
-    obtain ⟨⟨⟨⟨hfa, hza⟩, hfb⟩, hfd⟩, hnm⟩ := hf
-    have hlow : ∃ ca s' cb s'' cd, lowerExpr c a s0 = .ok (ca, s') ∧ lowerExpr c b s' = .ok (cb, s'') ∧ lowerExpr c d s'' = .ok (cd, s1) ∧
-        code = slotCode [(k.rank, ca, cb)] ++ cd ++ [.op1 0x17] := by
-      rw [lowerExpr] at h
-      simp only [M_bind_ok] at h
-      obtain ⟨ca, s', ha, cb, s'', hb, res, s3, ht, h⟩ := h
-      have hnone : res = none ∧ s3 = s'' := by
-        cases d with
-        | chunk k' a' b' d' =>
-          simp only [notMerged, decide_eq_true_eq] at hnm
-          have hng : ¬ k'.rank > k.rank := by omega
-          rw [lowerChunkTail] at ht
-          simp only [hng, if_false, M_pure_ok, Prod.mk.injEq] at ht
-          exact ⟨by simpa [eq_comm] using ht.1, by simpa [eq_comm] using ht.2⟩
-        | _ =>
-          rw [lowerChunkTail] at ht
-          · simp only [M_pure_ok, Prod.mk.injEq] at ht
-            exact ⟨by simpa [eq_comm] using ht.1, by simpa [eq_comm] using ht.2⟩
-          all_goals (intros; contradiction)
-      obtain ⟨rfl, rfl⟩ := hnone
+    obtain ⟨⟨⟨hfa, hza⟩, hfb⟩, hfd⟩ := hf
+    rw [lowerExpr] at h
+    simp only [M_bind_ok] at h
+    obtain ⟨ca, sa, ha, cb, sb, hb, res, s3, ht, h⟩ := h
+    have SA : StackOK c a s0 sa ca := stack_lemma a hfa c s0 sa ca ha
+    have SB : StackOK c b sa sb cb := stack_lemma b hfb c sa sb cb hb
+    cases res with
+    | none =>
+      have hs3 := tail_none c k.rank d sb s3 ht
+      subst hs3
       simp only [M_bind_ok, M_pure_ok, Prod.mk.injEq] at h
       obtain ⟨cd, s4, hd, rfl, rfl⟩ := h
-      exact ⟨ca, s', cb, s3, cd, ha, hb, hd, rfl⟩
-    obtain ⟨ca, s', cb, s'', cd, ha, hb, hd, rfl⟩ := hlow
-    obtain ⟨hexta, hopa, hruna⟩ := stack_lemma a hfa c s0 s' ca ha
-    obtain ⟨hextb, hopb, hrunb⟩ := stack_lemma b hfb c s' s'' cb hb
-    obtain ⟨hextd, hopd, hrund⟩ := stack_lemma d hfd c s'' s1 cd hd
-    rw [slotCode_single]
-    refine ⟨(hexta.trans hextb).trans hextd, ?_, ?_⟩
-    · intro i hi
-      simp only [List.mem_append, List.mem_replicate, List.mem_singleton] at hi
-      rcases hi with (((⟨_, rfl⟩ | hi | hi) | ⟨_, rfl⟩) | hi) | rfl
-      · simp [Instr.opc]
-      · exact hopa i hi
-      · exact hopb i hi
-      · simp [Instr.opc]
-      · exact hopd i hi
-      · simp [Instr.opc]
-    intro sF ctx hF hrel G hG ad st hb' hgv
-    have hG3 : ∀ g ∈ a.vars .glob ++ b.vars .glob ++ d.vars .glob, g ∈ G := by simpa [Expr.vars] using hG
-    have hGa : ∀ g ∈ a.vars .glob, g ∈ G := fun g hg => hG3 g (by simp [hg])
-    have hGb : ∀ g ∈ b.vars .glob, g ∈ G := fun g hg => hG3 g (by simp [hg])
-    have hGd : ∀ g ∈ d.vars .glob, g ∈ G := fun g hg => hG3 g (by simp [hg])
-    -- the run: zeros, a, b, zeros, d, slice
-    let n1 := 2 * (k.rank - 1)
-    let n2 := 2 * (4 - k.rank)
-    have r0 := run_zeros ctx n1 ad st
-    obtain ⟨na, gv1, hemba, hgv1, hr1⟩ := hruna sF ctx ((hextb.trans hextd).trans hF) hrel G hGa (ad + n1)
-      { st with stack := zs ad n1 ++ st.stack } hb' hgv
-    obtain ⟨nb, gv2, hembb, hgv2, hr2⟩ := hrunb sF ctx (hextd.trans hF) hrel G hGb (ad + n1 + codeSize ca)
-      { st with stack := na :: (zs ad n1 ++ st.stack), gvars := gv1 } hb' hgv1.1
-    have r3 := run_zeros ctx n2 (ad + n1 + codeSize ca + codeSize cb) { st with stack := nb :: na :: (zs ad n1 ++ st.stack), gvars := gv2 }
-    obtain ⟨nd, gv3, hembd, hgv3, hr4⟩ := hrund sF ctx hF hrel G hGd (ad + n1 + codeSize ca + codeSize cb + n2)
-      { st with stack := zs (ad + n1 + codeSize ca + codeSize cb) n2 ++ (nb :: na :: (zs ad n1 ++ st.stack)), gvars := gv2 } hb' hgv2.1
-    obtain ⟨sn, hsn, hsz⟩ := embH_name_zero c.handlers a na hfa hemba
-    obtain ⟨en, hen, hez⟩ := embH_name_zero c.handlers b nb hfb hembb
-    have hsn0 : sn ≠ .s (S "0") := fun e => by rw [hsz.mp e] at hza; cases hza
-    have hrun : runIs ctx ad (List.replicate n1 (Instr.op1 0x03) ++ (ca ++ cb) ++ List.replicate n2 (Instr.op1 0x03) ++ cd) st
-        = .ok { st with stack := nd :: (zs (ad + n1 + codeSize ca + codeSize cb) n2 ++ (nb :: na :: (zs ad n1 ++ st.stack))), gvars := gv3 } := by
-      rw [runIs_append, runIs_append, runIs_append, r0]
-      simp only [Except.bind]
-      rw [codeSize_zeros, runIs_append, hr1]
-      simp only [Except.bind]
-      rw [hr2]
-      simp only [Except.bind, codeSize_append, codeSize_zeros]
-      have e1 : ad + (n1 + (codeSize ca + codeSize cb)) = ad + n1 + codeSize ca + codeSize cb := by omega
-      have e2 : ad + (n1 + (codeSize ca + codeSize cb) + n2) = ad + n1 + codeSize ca + codeSize cb + n2 := by omega
-      rw [e1, r3]
-      simp only [e2, hr4]
-    have hfinal : ∃ p0 p1 p2 p3 p4 p5, zs (ad + n1 + codeSize ca + codeSize cb) n2 ++ (nb :: na :: (zs ad n1 ++ st.stack))
-        = slotStack k na nb p0 p1 p2 p3 p4 p5 ++ st.stack := by
-      cases k <;> simp only [n1, n2, ChunkKind.rank, zs, slotStack, List.nil_append, List.cons_append, List.append_assoc] <;>
-        exact ⟨_, _, _, _, _, _, rfl⟩
-    obtain ⟨p0, p1, p2, p3, p4, p5, hstk⟩ := hfinal
-    let pc := ad + codeSize (List.replicate n1 (Instr.op1 0x03) ++ (ca ++ cb) ++ List.replicate n2 (Instr.op1 0x03) ++ cd)
-    have hex := exec_strop ctx k na nb nd sn en hsn hsn0 hen p0 p1 p2 p3 p4 p5 ((pc : Nat) : Int)
-      { st with stack := nd :: (zs (ad + n1 + codeSize ca + codeSize cb) n2 ++ (nb :: na :: (zs ad n1 ++ st.stack))), gvars := gv3 } st.stack
-      (by rw [hstk])
-    refine ⟨.strOp k.tag.toList ((pc : Nat) : Int) na (if en ≠ .s (S "0") then nb else .none) nd, gv3, ?_, (hgv1.trans hgv2).trans hgv3, ?_⟩
-    · refine ⟨_, na, _, nd, rfl, hemba, ?_, hembd⟩
-      cases hzb : isZero b with
-      | true => left; exact ⟨rfl, by rw [if_neg (by rw [hez.mpr hzb]; simp)]⟩
-      | false =>
-        right
-        have : en ≠ .s (S "0") := fun e => by rw [hez.mp e] at hzb; cases hzb
-        exact ⟨rfl, by rw [if_pos this]; exact hembb⟩
-    · rw [runIs_append, hrun]
-      simp only [Except.bind]
-      rw [runIs_single]
-      exact hex
+      have SD := stack_lemma d hfd c _ _ _ hd
+      exact stackOK_of_tail c _ _ _ _ _
+        (chunk_tailOK c k a b d 0 (rank_le4 k).1 hfa hza hfb _ _ _ _ _ _ [] _ SA SB (tailOK_of_stack c d k.rank _ _ _ SD))
+    | some v =>
+      obtain ⟨sl', base⟩ := v
+      simp only [M_pure_ok, Prod.mk.injEq] at h
+      obtain ⟨rfl, rfl⟩ := h
+      have ST := tail_lemma d hfd c k.rank _ _ _ _ ht
+      exact stackOK_of_tail c _ _ _ _ _ (chunk_tailOK c k a b d 0 (rank_le4 k).1 hfa hza hfb _ _ _ _ _ _ _ _ SA SB ST)
 /-- argument lists: every argument is pushed, first argument deepest -/
+theorem tail_lemma : ∀ (e : Expr), FragE e = true → ∀ (c : Spec.Ctx) (r : Nat) (s0 s1 : St) (sl : Slots) (base : List Instr),
+    lowerChunkTail c r e s0 = .ok (some (sl, base), s1) → TailOK c e r s0 s1 sl base
+  | .chunk k a b d, hf, c, r, s0, s1, sl, base, h => by
+    simp only [FragE, Bool.and_eq_true, Bool.not_eq_true'] at hf
+    obtain ⟨⟨⟨hfa, hza⟩, hfb⟩, hfd⟩ := hf
+    rw [lowerChunkTail] at h
+    by_cases hk : k.rank > r
+    · simp only [hk, if_true, M_bind_ok] at h
+      obtain ⟨ca, sa, ha, cb, sb, hb, res, s3, ht, h⟩ := h
+      have SA : StackOK c a s0 sa ca := stack_lemma a hfa c s0 sa ca ha
+      have SB : StackOK c b sa sb cb := stack_lemma b hfb c sa sb cb hb
+      cases res with
+      | none =>
+        have hs3 := tail_none c k.rank d sb s3 ht
+        subst hs3
+        simp only [M_bind_ok, M_pure_ok, Prod.mk.injEq, Option.some.injEq] at h
+        obtain ⟨cd, s4, hd, ⟨rfl, rfl⟩, rfl⟩ := h
+        have SD := stack_lemma d hfd c _ _ _ hd
+        exact chunk_tailOK c k a b d r hk hfa hza hfb _ _ _ _ _ _ [] _ SA SB (tailOK_of_stack c d k.rank _ _ _ SD)
+      | some v =>
+        obtain ⟨sl', base'⟩ := v
+        simp only [M_pure_ok, Prod.mk.injEq, Option.some.injEq] at h
+        obtain ⟨⟨rfl, rfl⟩, rfl⟩ := h
+        have ST := tail_lemma d hfd c k.rank _ _ _ _ ht
+        exact chunk_tailOK c k a b d r hk hfa hza hfb _ _ _ _ _ _ _ _ SA SB ST
+    · simp only [hk, if_false, M_pure_ok, Prod.mk.injEq] at h
+      cases h.1
+  | .int _, _, c, r, s0, s1, sl, base, h => by
+    rw [lowerChunkTail] at h
+    · simp only [M_pure_ok, Prod.mk.injEq] at h
+      cases h.1
+    all_goals (intros; contradiction)
+  | .str _, _, c, r, s0, s1, sl, base, h => by
+    rw [lowerChunkTail] at h
+    · simp only [M_pure_ok, Prod.mk.injEq] at h
+      cases h.1
+    all_goals (intros; contradiction)
+  | .float _ _, _, c, r, s0, s1, sl, base, h => by
+    rw [lowerChunkTail] at h
+    · simp only [M_pure_ok, Prod.mk.injEq] at h
+      cases h.1
+    all_goals (intros; contradiction)
+  | .sym _, _, c, r, s0, s1, sl, base, h => by
+    rw [lowerChunkTail] at h
+    · simp only [M_pure_ok, Prod.mk.injEq] at h
+      cases h.1
+    all_goals (intros; contradiction)
+  | .var _ _, _, c, r, s0, s1, sl, base, h => by
+    rw [lowerChunkTail] at h
+    · simp only [M_pure_ok, Prod.mk.injEq] at h
+      cases h.1
+    all_goals (intros; contradiction)
+  | .me, _, c, r, s0, s1, sl, base, h => by
+    rw [lowerChunkTail] at h
+    · simp only [M_pure_ok, Prod.mk.injEq] at h
+      cases h.1
+    all_goals (intros; contradiction)
+  | .bin _ _ _, _, c, r, s0, s1, sl, base, h => by
+    rw [lowerChunkTail] at h
+    · simp only [M_pure_ok, Prod.mk.injEq] at h
+      cases h.1
+    all_goals (intros; contradiction)
+  | .un _ _, _, c, r, s0, s1, sl, base, h => by
+    rw [lowerChunkTail] at h
+    · simp only [M_pure_ok, Prod.mk.injEq] at h
+      cases h.1
+    all_goals (intros; contradiction)
+  | .field _, _, c, r, s0, s1, sl, base, h => by
+    rw [lowerChunkTail] at h
+    · simp only [M_pure_ok, Prod.mk.injEq] at h
+      cases h.1
+    all_goals (intros; contradiction)
+  | .call _ _, _, c, r, s0, s1, sl, base, h => by
+    rw [lowerChunkTail] at h
+    · simp only [M_pure_ok, Prod.mk.injEq] at h
+      cases h.1
+    all_goals (intros; contradiction)
+  | .mcall _ _ _, _, c, r, s0, s1, sl, base, h => by
+    rw [lowerChunkTail] at h
+    · simp only [M_pure_ok, Prod.mk.injEq] at h
+      cases h.1
+    all_goals (intros; contradiction)
+  | .list _, _, c, r, s0, s1, sl, base, h => by
+    rw [lowerChunkTail] at h
+    · simp only [M_pure_ok, Prod.mk.injEq] at h
+      cases h.1
+    all_goals (intros; contradiction)
+  | .plist _, _, c, r, s0, s1, sl, base, h => by
+    rw [lowerChunkTail] at h
+    · simp only [M_pure_ok, Prod.mk.injEq] at h
+      cases h.1
+    all_goals (intros; contradiction)
+  | .the _ _ _, _, c, r, s0, s1, sl, base, h => by
+    rw [lowerChunkTail] at h
+    · simp only [M_pure_ok, Prod.mk.injEq] at h
+      cases h.1
+    all_goals (intros; contradiction)
+  | .key _, _, c, r, s0, s1, sl, base, h => by
+    rw [lowerChunkTail] at h
+    · simp only [M_pure_ok, Prod.mk.injEq] at h
+      cases h.1
+    all_goals (intros; contradiction)
+  | .movie _, _, c, r, s0, s1, sl, base, h => by
+    rw [lowerChunkTail] at h
+    · simp only [M_pure_ok, Prod.mk.injEq] at h
+      cases h.1
+    all_goals (intros; contradiction)
+  | .oprop _ _, _, c, r, s0, s1, sl, base, h => by
+    rw [lowerChunkTail] at h
+    · simp only [M_pure_ok, Prod.mk.injEq] at h
+      cases h.1
+    all_goals (intros; contradiction)
 theorem args_lemma : ∀ (as : List Expr), FragL as = true → ∀ (c : Spec.Ctx) (s0 s1 : St) (code : List Instr),
     lowerArgs c as s0 = .ok (code, s1) →
     Ext s0 s1 ∧ (∀ i ∈ code, i.opc ≠ 153) ∧
@@ -1997,8 +2426,8 @@ theorem stmt_lemma (s : Stmt) (hf : FragS s = true) (c : Spec.Ctx) (hT : c.inTel
           | none => rw [ht] at hlvt; simp at hlvt
           | some tv =>
             obtain ⟨cls, tb, w⟩ := tv
-            rw [ht, theTbl_strThe t k _ ht] at hor
-            simp only [Bool.and_eq_true, Bool.false_eq_true, or_false] at hor
+            rw [ht, theTbl_strThe t k _ ht, theTbl_field t _ ht] at hor
+            simp only [Bool.and_eq_true, Bool.false_eq_true, or_false, Bool.false_and, false_and] at hor
             obtain ⟨htk, hidx⟩ := hor
             obtain ⟨nm, hnm⟩ := Option.isSome_iff_exists.mp hidx
             have hca : lowerExpr c x s0 = .ok (ca, s') := by
